@@ -108,11 +108,19 @@ int main() {
         uint64_t(E::kInvalidKZeroUse), uint64_t(E::kInvalidBroadcast), uint64_t(E::kInvalidEROrSAE), uint64_t(E::kInvalidAddress),
         uint64_t(E::kInvalidAddress64Bit), uint64_t(E::kInvalidAddress64BitZeroExtension), uint64_t(E::kInvalidSegment), uint64_t(E::kInvalidImmediate),
         uint64_t(E::kInvalidOperandSize), uint64_t(E::kInvalidUseOfGpbHi), uint64_t(E::kInvalidUseOfGpq),
-        uint64_t(InstDB::Mode::kX86), uint64_t(InstDB::Mode::kX64), uint64_t(RegType::kGp64)
+        uint64_t(InstDB::Mode::kX86), uint64_t(InstDB::Mode::kX64), uint64_t(RegType::kGp64), uint64_t(O::kX86_Evex)
       };
       printf("x86.consts %zu", countof(c));
       for (size_t i = 0; i < countof(c); i++) printf(" %llu", (unsigned long long)c[i]);
       printf("\n");
+    }
+    // behavioural probe: does validate() refuse an embedded broadcast on an instruction that defines none? (mov eax, [ebx]{1to2})
+    {
+      x86::Mem m = x86::ptr(x86::ebx);
+      m.set_broadcast(x86::Mem::Broadcast::k1To2);
+      Operand_ ops[2] = { x86::eax, m };
+      Error e = InstAPI::validate(Arch::kX86, BaseInst(Inst::kIdMov), ops, 2);
+      printf("x86.strict_bcst 1 %u\n", unsigned(e == Error::kInvalidBroadcast));
     }
     // file-static tables of x86instapi.cpp
     {
